@@ -199,7 +199,7 @@ def gen_engine(rng, exact=None, activation="general", n_in=None, batch_ok=False,
             concls = []
             for _ in range(rng.choice([1, 1, 2])):
                 ov = rng.choice(outputs)
-                hs = hedge_chain(rng, exact, rng.choice([0, 0, 0, 1, 2]))
+                hs = hedge_chain(rng, exact, rng.choice([0, 0, 0, 1, 2]), allow_sqrt=False)   # a sqrt hedge here would compose with one in the antecedent
                 concls.append({"var": ov["name"], "hedges": hs, "term": rng.choice(ov["terms"])["name"]})
             w = rng.choice([1.0, 1.0, 0.5, 0.25, 0.75])
             rules.append({"enabled": rng.random() < 0.9, "weight": w, "ante": ante, "concls": concls,
@@ -359,6 +359,10 @@ def gen_rows(rng, desc, n, special=True):
                 elif r < 0.8:
                     ps = [p for t in iv["terms"] if t["kind"] == "shape" for p in t["params"]
                           if math.isfinite(p) and lo - (hi - lo) <= p <= hi + (hi - lo)]   # location parameters only
+                    # poles of eagerly evaluated (masked) branches: Concave divides by (2*end - inflection - x)
+                    ps += [2 * t["params"][1] - t["params"][0] for t in iv["terms"]
+                           if t["kind"] == "shape" and t["cls"] == "Concave"
+                           and lo - (hi - lo) <= 2 * t["params"][1] - t["params"][0] <= hi + (hi - lo)]
                     v = rng.choice(ps) if ps else lo
                 elif r < 0.9:
                     v = rng.choice([lo - 0.37 * (hi - lo), hi + 0.21 * (hi - lo)])
